@@ -234,12 +234,12 @@ package db19
 // are not all empty) then the transaction's view of that index - the layered lookup of C16 - has no row with the
 // new key; and the point read of that key is registered for the conflict check (t.Read), which is what makes a
 // concurrent transaction adding the same key conflict (the checker itself: C01, not covered).
-// keysEmpty abstracts uniqueIndexEmpty (all fields of the unique index are empty in the record).
-//@ spec keysEmpty(rec core.Record, is ixkey.Spec) bool
+// keysEmpty: all fields of the unique index are empty in the record (recRaw names what Record.GetRaw returns)
+//@ spec keysEmpty(rec core.Record, is ixkey.Spec) bool = forall k :: 0 <= k && k < len(is.Fields) ==> len(recRaw(rec, is.Fields[k])) == 0
 //@ func uniqueIndexEmpty(rec, is) (r)
-//@   assumed
-//@   pure
-//@   defines r == keysEmpty(rec, is)
+//@   ensures! all_fields_empty: r <==> keysEmpty(rec, is)
+//@   loop 0 invariant -1 <= rangeindex && rangeindex < len(is.Fields) && forall k :: 0 <= k && k <= rangeindex ==> len(recRaw(rec, is.Fields[k])) == 0
+// (rangeindex: the hidden counter of `for _, f := range`, the index of the element processed last, -1 at entry)
 //@ func needsDupCheck(ix, rec) (r)
 //@   ensures! r <==> ix.Primary || (ix.Mode == 117 && !ix.ContainsKey && !keysEmpty(rec, ix.Ixspec))
 //@ ghost var gReads int
